@@ -284,3 +284,209 @@ func checkClassification(c *Ctx, rule string) {
 		c.Bad(rule, FuncName(fn), "classified-types", fn.Pos(), "the classifier returns fewer than five client protocol forms: shape changed")
 	}
 }
+
+// checkDirectionCells: the adapters of one direction read only that direction's negotiated
+// compression cells.  Request-side adapters (types with a Read method wrapping the request body)
+// must not consult respCompression, response-side adapters (the response writer and the writers
+// behind it) must not consult reqCompression: an envelope flag or a (de)compression decided from
+// the other direction's cell disagrees with the bytes whenever the two directions use different
+// compressions.
+func checkDirectionCells(c *Ctx, rule string, responseSide bool) {
+	p := c.P
+	var typeNames []string
+	wrong := "respCompression"
+	if responseSide {
+		typeNames = []string{"responseWriter", "envelopingWriter", "transformingWriter", "errorWriter", "limitWriter"}
+		wrong = "reqCompression"
+	} else {
+		typeNames = []string{"envelopingReader", "transformingReader", "hardLimitReader"}
+	}
+	wrongFields := map[*types.Var]bool{}
+	for _, owner := range []string{"clientProtocolDetails", "serverProtocolDetails"} {
+		if f := p.Field(owner, wrong); f != nil {
+			wrongFields[f] = true
+		}
+	}
+	if len(wrongFields) != 2 {
+		fatalf("anchor=clientProtocolDetails/serverProtocolDetails.%s not found", wrong)
+	}
+	n := 0
+	for _, tn := range typeNames {
+		named := p.Named(tn)
+		if named == nil {
+			continue
+		}
+		pt := types.NewPointer(named)
+		for _, fn := range p.Funcs {
+			root := fn
+			for root.Parent() != nil {
+				root = root.Parent()
+			}
+			if root.Signature.Recv() == nil || !types.Identical(root.Signature.Recv().Type(), pt) && !types.Identical(root.Signature.Recv().Type(), named) {
+				continue
+			}
+			n++
+			var bad []string
+			ForEachInstr(fn, func(in ssa.Instruction) {
+				if fa, ok := in.(*ssa.FieldAddr); ok && wrongFields[FieldOfAddr(fa)] {
+					// a store is the response-header handler recording the cell: only reads matter
+					for _, ref := range *fa.Referrers() {
+						if u, isLoad := ref.(*ssa.UnOp); isLoad && u.Op == token.MUL {
+							bad = append(bad, p.Pos(in.Pos()))
+						}
+					}
+				}
+				if fv, ok := in.(*ssa.Field); ok && wrongFields[FieldOfVal(fv)] {
+					bad = append(bad, p.Pos(in.Pos()))
+				}
+			})
+			c.Check(len(bad) == 0, rule, FuncName(fn), "reads-own-direction-only", fn.Pos(),
+				"does not read "+wrong,
+				"reads the other direction's compression cell ("+wrong+" at "+joinStr(bad)+"): the envelope flag / (de)compression disagrees with the bytes whenever request and response use different compressions")
+		}
+	}
+	if n == 0 {
+		c.Bad(rule, "adapters", "reads-own-direction-only", token.NoPos, "no adapter methods found: shape changed")
+	}
+}
+
+// checkUnitFlagDecompress: an enveloped unit (message or end-of-stream frame) is decompressed
+// exactly when ITS envelope says so.  In the adapters that process envelopes, every
+// decompression is dominated by a condition that derives from an envelope's compressed flag:
+// the flag itself, or a field every store of which derives from such a flag.  (Whether a
+// compression was negotiated is not the same thing: gRPC and Connect allow uncompressed frames
+// in a compressed stream, and trailer frames are commonly sent uncompressed.)
+func checkUnitFlagDecompress(c *Ctx, rule string) {
+	p := c.P
+	envComprF := p.MustField("envelope", "compressed")
+	memo := map[*types.Var]int{} // 1 derived, 2 not / in progress
+	var flagDerived func(v ssa.Value, depth int) bool
+	var fieldDerived func(f *types.Var, depth int) bool
+	fieldDerived = func(f *types.Var, depth int) bool {
+		if f == envComprF {
+			return true
+		}
+		switch memo[f] {
+		case 1:
+			return true
+		case 2:
+			return false
+		}
+		memo[f] = 2
+		if depth > 3 || !isBoolType(f.Type()) {
+			return false
+		}
+		n := 0
+		for _, fn := range p.Funcs {
+			for _, st := range StoresToField(fn, f) {
+				n++
+				if k, isK := ConstBool(st.Val); isK && !k {
+					continue
+				}
+				if !flagDerived(st.Val, depth+1) {
+					return false
+				}
+			}
+		}
+		if n == 0 {
+			return false
+		}
+		memo[f] = 1
+		return true
+	}
+	flagDerived = func(v ssa.Value, depth int) bool {
+		if depth > 4 {
+			return false
+		}
+		switch x := v.(type) {
+		case *ssa.Field:
+			return fieldDerived(FieldOfVal(x), depth)
+		case *ssa.UnOp:
+			if x.Op == token.MUL {
+				if fa, ok := x.X.(*ssa.FieldAddr); ok {
+					return fieldDerived(FieldOfAddr(fa), depth)
+				}
+			}
+			if x.Op == token.NOT {
+				return false // 'not compressed' is not a reason to decompress
+			}
+		}
+		ls := p.OriginsInter(v)
+		if len(ls) == 0 {
+			return false
+		}
+		for _, l := range ls {
+			switch {
+			case l.Kind == "load" && l.Field != nil && fieldDerived(l.Field, depth):
+			case l.Kind == "other":
+				fv, ok := l.V.(*ssa.Field)
+				if !ok || !fieldDerived(FieldOfVal(fv), depth) {
+					return false
+				}
+			case l.Kind == "const":
+				if k, isK := ConstBool(l.V); !isK || k {
+					return false
+				}
+			case l.Kind == "param":
+				// every static call site passes a derived value
+				prm, _ := l.V.(*ssa.Parameter)
+				if prm == nil {
+					return false
+				}
+				idx := -1
+				for i, q := range prm.Parent().Params {
+					if q == prm {
+						idx = i
+					}
+				}
+				es := p.Callers(prm.Parent())
+				if len(es) == 0 || idx < 0 {
+					return false
+				}
+				for _, e := range es {
+					if e.Kind != "static" || idx >= len(e.Site.Common().Args) || !flagDerived(e.Site.Common().Args[idx], depth+1) {
+						return false
+					}
+				}
+			default:
+				return false
+			}
+		}
+		return true
+	}
+	n := 0
+	for _, tn := range []string{"envelopingWriter", "transformingWriter", "envelopingReader", "transformingReader"} {
+		named := p.Named(tn)
+		if named == nil {
+			continue
+		}
+		pt := types.NewPointer(named)
+		for _, fn := range p.Funcs {
+			if fn.Signature.Recv() == nil || !types.Identical(fn.Signature.Recv().Type(), pt) {
+				continue
+			}
+			for _, call := range Calls(fn) {
+				sc := call.Common().StaticCallee()
+				if sc == nil || sc.Signature.Recv() == nil || !isPtrTo(sc.Signature.Recv().Type(), RootPath, "compressionPool") {
+					continue
+				}
+				if nm := N(sc); nm != "decompress" && nm != "decompressLimited" {
+					continue
+				}
+				n++
+				okFlag := false
+				for _, f := range p.FactsAtInter(call.Block()) {
+					if f.Truth && flagDerived(f.Cond, 0) {
+						okFlag = true
+					}
+				}
+				c.Check(okFlag, rule, FuncName(fn), "decompress-follows-envelope-flag", call.Pos(),
+					"the unit is decompressed under a condition that derives from its own envelope's compressed flag",
+					"an enveloped unit is decompressed without consulting its envelope's compressed flag (e.g. because a compression was negotiated): an uncompressed frame in a compressed stream - typically the trailer frame - is fed to the decompressor and the RPC fails, losing status and trailers")
+			}
+		}
+	}
+	if n == 0 {
+		c.Bad(rule, "adapters", "decompress-follows-envelope-flag", token.NoPos, "no decompression of enveloped units found in the envelope adapters: shape changed")
+	}
+}
